@@ -80,7 +80,9 @@ structure DState where
 
 def DState.init : DState := ⟨⟨0, 0, false, false⟩, ⟨0, 0⟩⟩
 
-/-- tokens starting with `#` carry implementation-side details (codecs, cut position, …) and are skipped -/
+/-- tokens starting with `#` carry implementation-side details (codecs, cut position, reserved attribute bits of a
+    batch on the wire `#attrs=…`, …) and are skipped: reserved attribute bits are ignored, a batch parses as if
+    they were absent -/
 def step (s : DState) (t : List String) : DState × String :=
   match t.filter (fun x => !x.startsWith "#") with
   | ["reset", rc, tsw, fd, fm, off, fs] =>
